@@ -24,6 +24,9 @@ type rowVal struct {
 	Name string
 	Data []byte
 	Want []byte // nil: not the owner's intact value (nothing demanded of it here)
+	// OldOnly: a bare (not serialized) envelope, which only the chain with the old-container
+	// detector looks for
+	OldOnly bool
 }
 
 type rowsReplay struct {
@@ -41,13 +44,31 @@ func rowsMenu(l *envl.Lab) []rowVal {
 		if a.Err != nil || b.Err != nil || o.Err != nil {
 			ev.Fatalf("part S: cannot produce %s: %v %v %v", f, a.Err, b.Err, o.Err)
 		}
-		m = append(m, rowVal{string(f) + ":own-long", a.Out, ptA}, rowVal{string(f) + ":own-short", b.Out, ptB}, rowVal{string(f) + ":other-client", o.Out, nil})
+		m = append(m, rowVal{string(f) + ":own-long", a.Out, ptA, false}, rowVal{string(f) + ":own-short", b.Out, ptB, false}, rowVal{string(f) + ":other-client", o.Out, nil, false})
 		if f.IsSearchable() {
 			n := hmac.GetDefaultHashSize()
-			m = append(m, rowVal{string(f) + ":own-long-with-hash-of-short", append(append([]byte{}, b.Out[:n]...), a.Out[n:]...), nil})
+			m = append(m, rowVal{string(f) + ":own-long-with-hash-of-short", append(append([]byte{}, b.Out[:n]...), a.Out[n:]...), nil, false})
 		}
 	}
-	m = append(m, rowVal{"plain", []byte("not protected at all"), nil})
+	// values the application protected itself (for its own identity) and wrote through the searchable
+	// transparent encryptor: passed through, indexed by their plaintext, revealed to the owner
+	for _, p := range envl.AllProducers() {
+		if p.Name != "SearchableDataEncryptor(struct)" && p.Name != "SearchableDataEncryptor(block)" {
+			continue
+		}
+		for _, g := range []envl.Form{envl.StructRaw, envl.StructCont, envl.BlockRaw, envl.BlockCont} {
+			inner := l.Protect(envl.ProducerFor(g), fx.Alpha, ptA)
+			if inner.Err != nil {
+				ev.Fatalf("part S: cannot produce %s: %v", g, inner.Err)
+			}
+			outer := l.Protect(p, fx.Alpha, inner.Out)
+			if outer.Err != nil || outer.Panic != "" {
+				ev.Fatalf("part S: %s on an own %s value: %v %s", p.Name, g, outer.Err, outer.Panic)
+			}
+			m = append(m, rowVal{string(p.Form) + ":app-protected-" + string(g), outer.Out, ptA, g.IsRaw()})
+		}
+	}
+	m = append(m, rowVal{"plain", []byte("not protected at all"), nil, false})
 	return m
 }
 
@@ -88,6 +109,9 @@ func rowsPart(r *ev.Run, l *envl.Lab) {
 		class := "revealed"
 		for i, out := range outs {
 			want := byName[names[i]].Want
+			if byName[names[i]].OldOnly && !cs.old {
+				continue
+			}
 			if want != nil && !bytes.Equal(out, want) {
 				class = "not-revealed"
 				r.Violation(fmt.Sprintf("C01/S/%s/own-value-not-revealed-after-other-values/%s", cs.name, kindOfRow(names[i])),
